@@ -342,7 +342,7 @@ Definition run_from := run_gen advance_suspend_lk get_value_lk.
 
    m_viol (sticky, freezes the monitor): the environment left the preconditions — a subscriber did not
    follow the next() protocol (ready; suspend only after ready=false; get only after ready=true /
-   suspend=false / being woken; no destructor while parked), an op that the model rejects was reported as
+   suspend=false / being woken), an op that the model rejects was reported as
    executed, undefined behaviour was reported, or a position / the stream length reached 2^62.
    m_bad (sticky): a wake-up list or a subscription position contradicts the specification.
    m_lost r: an end of stream is legitimate for r because it lagged more than max behind (all_values), or it
@@ -506,15 +506,13 @@ Definition mon_step (m : mon) (x : op) (o : obs) : mon :=
           else add_bad m (negb (eqlz (o_wk o) []))
       | None => set_viol m
       end
-  | OLeave s =>
+  | OLeave s =>   (* a subscriber may be destroyed while an awaiter of it is parked (a coroutine frame destroyed together
+                     with its subscriber): the record stays parked but dead, so that awaiter must never be resumed *)
       match get (m_subs m) s with
       | Some r =>
-          match m_pc r with
-          | PParked _ => set_viol m
-          | _ => if negb (m_live r) then set_viol m else
-                 set_sub m s (mkSr false (m_mode r) (m_pc r) (m_start r) (m_cur r) (m_deliv r) (m_eos r)
-                                   (m_eos_ok r) (m_kicked r) (m_lost r))
-          end
+          if negb (m_live r) then set_viol m else
+          set_sub m s (mkSr false (m_mode r) (m_pc r) (m_start r) (m_cur r) (m_deliv r) (m_eos r)
+                            (m_eos_ok r) (m_kicked r) (m_lost r))
       | None => set_viol m
       end
   | OPosition s =>
